@@ -35,7 +35,8 @@ H0 == [ inclBegin |-> TRUE,        \* Incl at the begin of the current job
         rep       |-> 0,           \* consecutive identical evaluations without outside change
         lastJob   |-> <<"", 0>>,
         outc      |-> EmptyF,      \* <<pr, cmdclass>> -> number of evaluations with that outcome
-        resetW    |-> EmptyF ]     \* pr id -> w/ names that existed when its last reset completed
+        resetW    |-> EmptyF,      \* pr id -> w/ names that existed when its last reset completed
+        faultSeen |-> FALSE ]      \* a fault or third-party step was injected earlier in this history
 
 RECURSIVE AddAnc(_, _, _)
 AddAnc(a, s, j) ==
@@ -108,8 +109,9 @@ LineClauses(prev, o, a, c, hh, srcTipsNow) ==
   \cup (IF bstep /\ ~ ForeignUntouched(prev, o) THEN {"C08.foreign"} ELSE {})
   \cup (IF bstep /\ ~ DestDeletedOnlyByJob(prev, o) THEN {"C08.destdel"} ELSE {})
   \cup (IF bstep /\ ~ NoLoss(o, a, hh.everDest) THEN {"C08.noloss"} ELSE {})
-  \cup (IF bstep /\ ~ HeldUntouched(prev, o, a, srcTipsNow) THEN {"C12.held"} ELSE {})
+  \cup (IF bstep /\ hh.begin.ev = "job_begin" THEN HeldClauses(hh.begin, prev, o, a, srcTipsNow) ELSE {})
   \cup (IF ~ NoCommentOnForeign(o) THEN {"C12.nocomment"} ELSE {})
+  \cup (IF o.ev = "check" /\ o.chk.dt # o.chk.ref THEN {"C02.recovery"} ELSE {})
   \cup (IF \E p \in Prs(o) :
              /\ HasPr(prev, p.id)
              /\ Len(p.msgs) > Len(PrById(prev, p.id).msgs)
@@ -150,7 +152,7 @@ JobEndClauses(o, a, c, hh) ==
   \cup (IF kind = "DeleteBranch" /\ ~ faulted /\ ~ DeleteOk(b, o) THEN {"C20.delete"} ELSE {})
   \cup (IF kind \in {"DeleteQueues", "RebuildQueues"} /\ ~ OnlyQueuesChanged(b, o)
         THEN {"C20.queues.scope"} ELSE {})
-  \cup (IF kind = "RebuildQueues" /\ ~ faulted /\ st = "JobSuccess" /\ ~ RebuildResubmits(b, o, a)
+  \cup (IF kind = "RebuildQueues" /\ ~ faulted /\ ~ hh.faultSeen /\ st = "JobSuccess" /\ ~ RebuildResubmits(b, o, a)
         THEN {"C20.rebuild.resubmit"} ELSE {})
   \* ---- C15
   \cup (IF kind = "EvalPR" /\ P # {} /\ ~ faulted /\ OutcomeClass(st) = "reset" THEN
@@ -189,7 +191,7 @@ JobEndClauses(o, a, c, hh) ==
   \* ---- C12 lifted hold
   \cup (IF kind = "EvalPR" /\ P # {} /\ ~ faulted THEN
           LET p == CHOOSE x \in P : TRUE
-          IN IF HasPr(b, p.id) /\ ~ Held(b, PrById(b, p.id)) /\ HasRef(b, p.src) /\ HasRef(b, p.dst)
+          IN IF HasPr(b, p.id) /\ ~ Finished(b, PrById(b, p.id)) /\ HasRef(b, p.src) /\ HasRef(b, p.dst)
                 /\ IntegRefs(b, p) \cap {r \in Refs(b) : r.kind = "qw"} = {}
                 /\ st \in {"AfterPullRequest", "NotMyJob", "NothingToDo"}
              THEN {"C12.lifted"} ELSE {}
@@ -242,6 +244,7 @@ Step ==
                                 THEN LET key == <<(CHOOSE x \in P : TRUE).id, cls>>
                                      IN Upd(h0.outc, key, Get(h0.outc, key, 0) + 1)
                                 ELSE h0.outc,
+                  faultSeen |-> h0.faultSeen \/ o.ev = "third" \/ (o.job.kind # "" /\ o.job.faulted),
                   resetW    |-> IF endj /\ o.job.kind = "EvalPR" /\ P # {}
                                 THEN LET p == CHOOSE x \in P : TRUE
                                      IN IF o.job.status = "ResetComplete" /\ h0.begin.ev = "job_begin"
